@@ -467,6 +467,7 @@ Proof.
       - intro E. apply (p_cls _ P1) in E. apply cls_tgt_inv in E as (t0 & E & _). discriminate.
       - rewrite parent_tgt. rewrite (upd1_other _ _ _ _ _ U1); [apply (m_base _ _ M)|].
         unfold tnew. intro E. apply (f_equal (@length comp)) in E. rewrite app_length in E. cbn in E. lia. }
+    clearbody f1.
     apply walk_cons.
     + apply G_inv, pre_inv, P1.
     + intros _. cbn [exec]. rewrite Hren. discriminate.
@@ -496,6 +497,7 @@ Proof.
         - rewrite G2. rewrite path_eqb_neq by apply tgt_not_new. rewrite path_eqb_refl. reflexivity. }
       assert (Fr2 : forall ts', ts' <> ts -> fs_get f2 (ver base ts') = fs_get f0 (ver base ts')).
       { intros ts' Hne. rewrite <- (app_nil_r (ver base ts')), Hunder, app_nil_r. apply (p_frame _ P), Hne. }
+      clearbody f2.
       destruct prev as [p|].
       * destruct (Hprev p eq_refl) as (tp & -> & Hkp).
         assert (Htp : tp <> ts) by (intros ->; exact (fresh Hkp)).
